@@ -30,6 +30,7 @@ def main():
     args = sys.argv[1:]
     prop, wt = args[0], args[1]
     name, checks, tier = None, None, "quick"
+    race = "--race" in args
     i = 2
     while i < len(args):
         if args[i] == "--name":
@@ -63,7 +64,8 @@ def main():
             shutil.copy(os.path.join(wt, rel), os.path.join(scratch, rel))
         pkgs = sorted({"./" + os.path.dirname(r) for r in demo_rel}) or ["./..."]
         # without the change: demo passes
-        rc0, out0 = run(["go", "test", "-vet=off", "-count=1"] + pkgs, cwd=scratch)
+        raceflag = ["-race"] if race else []
+        rc0, out0 = run(["go", "test", "-vet=off", "-count=1"] + raceflag + pkgs, cwd=scratch)
         meta["confirmed"]["demo_passes_without_change"] = rc0 == 0
         rc, out = run("git apply %s" % patch, cwd=scratch)
         if rc != 0:
@@ -72,7 +74,7 @@ def main():
             meta["confirmed"]["applies"] = True
             rcb, outb = run("go build ./...", cwd=scratch)
             meta["confirmed"]["builds"] = rcb == 0
-            rc1, out1 = run(["go", "test", "-vet=off", "-count=1"] + pkgs, cwd=scratch)
+            rc1, out1 = run(["go", "test", "-vet=off", "-count=1"] + raceflag + pkgs, cwd=scratch)
             meta["confirmed"]["demo_fails_with_change"] = rc1 != 0
             meta["demo_failure_excerpt"] = "\n".join(out1.splitlines()[-25:])[-2500:]
             # the existing suite (without the demo) passes with the change
